@@ -5,6 +5,7 @@ From Coq Require Import List ZArith.
 Require Import Avro.Model.Base Avro.Model.Prim Avro.Model.Schema Avro.Model.GoType
                Avro.Model.Spec Avro.Model.Codec Avro.Model.Denote.
 Require Import Avro.Proofs.Wire Avro.Proofs.BuildP Avro.Proofs.WriteP Avro.Proofs.SpecP Avro.Proofs.RoundTrip.
+Require Import Avro.Model.Container Avro.Model.Writer Avro.Proofs.ContainerP Avro.Proofs.FileP Avro.Proofs.EndToEnd.
 Import ListNotations.
 Open Scope Z_scope.
 
@@ -57,6 +58,37 @@ Theorem C02_what_is_omitted :
   (forall c z om, c_omit (CMap c z om) VMapNil = om).
 Proof. exact omit_cases. Qed.
 Print Assumptions C02_what_is_omitted.
+
+(* The whole file.  For any history of Encode/Flush calls closed by a flush
+   whose records are what codec c writes for values denoting physical datums,
+   any block size and any compressor with an inverse: a reader that shares no
+   code with the library's codecs — the container reader instantiated with the
+   specification's reference decoder [sd] as its record decoder — recovers the
+   header as written (magic, the schema and codec entries, the sync marker), reads
+   every block (declared counts and sizes are exact, or it would stop), decodes
+   exactly as many records as were appended with nothing left over in any block,
+   and each record's bytes are the canonical Avro encoding of its datum and
+   decode to it (C02_record_is_its_datum). *)
+Theorem C02_file_is_valid_avro : forall reg s t om c, build reg s t om = Some c ->
+  forall fuel compress decompress, (forall x, decompress (compress x) = Some x) ->
+  forall sync, len sync = 16 ->
+  forall schema_json codec_name size ops bfuel,
+  len schema_json < two63 -> len codec_name < two63 ->
+  Forall (fun r => exists d, written_datum s c fuel r d) (recs_of ops) ->
+  Forall (group_small compress) (fst (blocks_spec size [] (ops ++ [OpFlush]))) ->
+  (length (fst (blocks_spec size [] (ops ++ [OpFlush]))) < bfuel)%nat ->
+  exists body,
+    read_header (concat (file_chunks compress schema_json codec_name sync size (ops ++ [OpFlush])))
+      = Some ({| h_meta := written_meta schema_json codec_name; h_sync := sync |}, body) /\
+    read_blocks decompress (sd_rr s fuel) (fun _ => None) bfuel sync 0 body = (length (recs_of ops), FOk).
+Proof. intros reg s t om c Hb fuel cp dc Hdc sync Hs. exact (file_is_valid_avro reg s t om c Hb fuel cp dc Hdc sync Hs). Qed.
+Print Assumptions C02_file_is_valid_avro.
+
+Theorem C02_record_is_its_datum : forall reg s t om c, build reg s t om = Some c ->
+  forall fuel r d, written_datum s c fuel r d ->
+  r = canon_encode s d /\ rec_decodes (sd_rr s fuel) r /\ forall rest, sd_rv s fuel (r ++ rest) = Some d.
+Proof. intros reg s t om c Hb fuel r d. exact (written_datum_decodes reg s t om c Hb fuel r d). Qed.
+Print Assumptions C02_record_is_its_datum.
 
 (* non-vacuity: a struct with a nil pointer, a zero omitempty int, a set pointer and a map *)
 Example C02_ex :
